@@ -328,6 +328,36 @@ var ruleBOMTable = &core.Rule{ID: "R07.3", Min: 7,
 				}
 				continue
 			}
+			// an early "" for an input shorter than every mark: nothing that short starts with a mark
+			if k, ok := core.ConstString(ret.Results[0]); ok && k == "" && !r.Header.Dominates(ret.Block()) {
+				minLen := -1
+				for _, e := range cm.boms {
+					if minLen < 0 || len(e.mark) < minLen {
+						minLen = len(e.mark)
+					}
+				}
+				short := false
+				conds := core.DominatingConds(ret.Block())
+				for _, de := range conds {
+					cond, val := core.StripNot(de.Cond, de.Val)
+					if bo, ok := cond.(*ssa.BinOp); ok {
+						if ln, ok := bo.X.(*ssa.Call); ok && core.IsBuiltin(&ln.Call, "len") && ln.Call.Args[0] == ssa.Value(f.Params[0]) {
+							if kk, ok := core.ConstInt(bo.Y); ok {
+								// len < kk (true edge) or len >= kk (false edge) with kk <= shortest mark; len == 0; len <= kk-1
+								lt := (bo.Op == token.LSS && val) || (bo.Op == token.GEQ && !val)
+								le := (bo.Op == token.LEQ && val) || (bo.Op == token.GTR && !val)
+								eq0 := (bo.Op == token.EQL && val && kk == 0)
+								if (lt && int(kk) <= minLen) || (le && int(kk) < minLen) || eq0 {
+									short = true
+								}
+							}
+						}
+					}
+				}
+				if short && len(conds) == 1 && minLen > 0 {
+					continue
+				}
+			}
 			// must be under HasPrefix(param, elem.mark) == true and return elem.name of the same element
 			under := false
 			for _, de := range core.DominatingConds(ret.Block()) {
